@@ -208,6 +208,7 @@ func Verify(opts Options) int {
 	rr.discharge(opts, nil)
 	defer rr.cleanup(opts)
 	bad := 0
+	shown := 0
 	for _, f := range rr.Funcs {
 		if f.Trusted {
 			fmt.Printf("== %s: trusted\n", f.Func)
@@ -228,7 +229,10 @@ func Verify(opts Options) int {
 		if !ok {
 			bad++
 		}
-		if opts.Verbose || !ok {
+		if !ok {
+			shown++
+		}
+		if (opts.Verbose || !ok) && (opts.Verbose || shown <= 25) {
 			fmt.Printf("%-13s %-70s %5.2fs %s  [%s]\n", r.V.Status, r.O.Name, r.V.Secs, r.V.By, r.O.Pos)
 			if !ok {
 				if r.O.Src != "" {
